@@ -85,6 +85,11 @@ var pegDigitFree = []string{"st_name1", "st_name1r.0", "st_name2r.0"}
 // ':' — otherwise `射击:弓箭40` is read as the name 射击 with the value `弓箭40` (C18: exactly the written name).
 var pegAltBefore = []string{"st_assign: st_name2 before st_name2r", "st_assign: st_name1 before st_name2r", "st_assign: st_name1 before st_name1r"}
 
+// pegClassExcludes: "<rule>: <chars>" — the plain-text class of each string literal style excludes exactly its own
+// delimiter, the backslash and (templates) the opening brace: every other character, the other styles' delimiters
+// included, is literal text (C13: every text has a spelling in every style that can hold it).
+var pegClassExcludes = []string{"strPart1Normal: '\\", "strPart2Normal: \"\\", "strPart3Normal: `\\{", "strPart4Normal: \x1e\\{"}
+
 // jsonInt / jsonFloat / jsonStr: the value the JSON document held by b has at a tag path such as "t", "v", "v.expr"
 // (encoding/json document model of dsvc: what Marshal wrote at a path is what Unmarshal reads there).
 func jsonInt(b []byte, path string) IntType   { panic("spec only") }
